@@ -9,7 +9,7 @@ CHECKS = {
     note="Bounded: amounts from a reserve-relative alphabet, depth <= bound. Trusted: cw-multi-test chain semantics, cw20-base, rustc; snapshot/restore validated by genesis replays.",
     tech="explicit-state model checking of the implementation (level-synchronous BFS, full-state fingerprints)", ref="DESIGN.md §4 C01"),
  "C02": dict(
-    text="Bounded-exhaustive enumeration (depth-1 exploration, nothing sampled) of the real compute_swap over (boundary values)^3 x 14 fee triples x 3 decimal settings plus a dense cube: 4.2e6 points quick, 2.0e8 thorough; every point compared with an exact 1024-bit oracle (gross price, each fee, return<ask, totality incl. caught panics, there-and-back). A sub-grid is executed on the really deployed pair: Simulation query == hook result and executed there-and-back swaps never gain.",
+    text="Bounded-exhaustive enumeration (depth-1 exploration, nothing sampled) of the real compute_swap over (boundary values)^3 x 14 fee triples x 3 decimal settings plus a dense cube: 4.2e6 points quick, 2.0e8 thorough; every point compared with an exact 1024-bit oracle (gross price, each fee, return<ask, totality incl. caught panics, there-and-back). A sub-grid is executed on the really deployed pair: Simulation query == hook result and executed there-and-back swaps never gain; the quote is repeated in the state after those swaps (pending protocol fees of both assets) and after two fee updates through the factory, each time against the formula on the reserves the pool reports and the triple in force.",
     note="Covers structured grid points only, not all 2^384 inputs. Totality is judged against the ideal-price spread fitting 128 bits. Trusted: uint crate arithmetic for the oracle.",
     tech="bounded-exhaustive input-grid enumeration on the real function + deployed contract (explicit-state, depth 1)", ref="DESIGN.md §4 C02"),
  "C04": dict(
@@ -45,7 +45,7 @@ CHECKS = {
     text="Explicit-state BFS (depth 9 quick / 13 thorough) over the real epoch-manager with 0-3 hook receiver contracts and over fee_distributor::NewEpoch in a full fee hub: clocks on whole seconds, with genesis at +0.75 s, a duration of 1 day + 1 ns, and genesis at time 0 (distributor); block time set to {genesis-duration-1ns, genesis-duration, genesis-1ns, genesis, boundary-1ns, boundary, boundary+1ns, boundary+2.5 durations}, creation attempts (also repeated in one block), hook add/remove by owner and stranger, duration changes: creation accepted iff the full duration elapsed (and not before genesis), id+1 and start+duration exactly, rejected attempts (errors and caught panics) change nothing, every registered receiver logs exactly one notification carrying the new epoch, stored epochs gap-free.",
     note="Durations 1 and 3 days; bounded depth.", tech="explicit-state model checking of the implementation (BFS) over time schedules", ref="DESIGN.md §4 C20"),
  "C10": dict(
-    text="Exhaustive enumeration of the full configuration product (7776 configurations: fee state {0,<1000,>1000} of 2 real pairs x {0,500,5000} of 2 real vaults x take rate {inactive,0,1e-18,1%,50%,1-1e-18} x routes {both,none,A only,B only} x fault {none, routed pair paused, routed hop exceeds max spread (vault-held asset), same for the pool-only cw20 asset}); each configuration is produced by real swaps/loans on a fully deployed hub (factories, router, collector, lair, distributor) and followed by one real NewEpoch: ledgers cleared, collector assets swapped-through-route-or-untouched, DAO == floor(rate*balance) and recorded per epoch, distributor delta == new epoch total - rollover, conservation of the distribution asset, ForwardFees only by the distributor, failing hop reverts everything.",
+    text="Exhaustive enumeration of the full configuration product (13824 configurations: fee state {0,<1000,>1000 on both sides, one side above and one below the threshold} of 2 real pairs x {0,500,5000} of 2 real vaults x take rate {inactive,0,1e-18,1%,50%,1-1e-18} x routes {both,none,A only,B only} x fault {none, routed pair paused, routed hop exceeds max spread (vault-held asset), same for the pool-only cw20 asset}); each configuration is produced by real swaps/loans on a fully deployed hub (factories, router, collector, lair, distributor) and followed by one real NewEpoch: ledgers cleared, collector assets swapped-through-route-or-untouched, DAO == floor(rate*balance) and recorded per epoch, distributor delta == new epoch total - rollover, conservation of the distribution asset, ForwardFees only by the distributor, failing hop reverts everything.",
     note="One NewEpoch per configuration; protocol fee 1%, no burn; the collector does not enumerate three-asset pools (stated scope).", tech="exhaustive configuration/fault enumeration on the implementation (explicit-state, one transaction deep)", ref="DESIGN.md §4 C10"),
  "C03": dict(
     text="(a) exhaustive grid on the real stableswap compute_swap and LP-mint formula (hook): whole-token reserve magnitudes incl. 1:1..1:1e9 imbalances x offers {1 unit,1e-3,1,10%,100%,10x} x amp {1..1e6} x decimals {(6,6),(6,8),(8,6),(6,18),(18,6),(4,5)} x fee triples, compared with D and y solved independently (exact sign predicate of the polynomial) on decimal-normalised reserves: pool keeps the curve reserve up to 2+2*slope base units, proceeds <= ask reserve, proceeds monotone in the offer, fees floor(share*gross), mint <= invariant growth. (b) BFS histories (depth 3/4) of swap/provide/withdraw/collect/fee changes on the real deployed stableswap pair with decimals (6,6), (6,18), (6,8) [and (8,6) thorough], deposits also with the assets listed in reverse order: normalised D per LP never falls, mint bound, deposit->withdraw probe.",
@@ -55,13 +55,13 @@ CHECKS = {
     text="In every state reached by explicit-state BFS (depth 2 quick / 3 thorough) over the real CP pair, stableswap pair, 3pool, router chain (A-B CP, B-C CP, C-D stableswap) and vault: Simulation{offer} is compared with an execution of the same swap on a copy of the state (attributes AND balance/ledger/supply deltas, native Swap and cw20 Send paths, all directions, offers {1,999,1e6,10% reserve,reserve}); SimulateSwapOperations is compared with the receiver's balance delta for all 12 one/two/three-hop routes; Share{amount} with the payout of withdrawing that amount.",
     note="Router probes assume the router holds none of the route's assets beforehand. Bounded depth/alphabets.", tech="explicit-state model checking of the implementation (BFS) with differential probes on state copies", ref="DESIGN.md §4 C14"),
  "C15": dict(
-    text="(a) exhaustive grid of assert_max_spread over (offer,return,spread) boundary alphabet^3 x 10 max_spread values x 7 belief prices against the documented rule in exact rationals (1.3e6 points); (b) exhaustive grid of assert_slippage_tolerance (pair CP and stableswap arms, 3pool) over deposits x pools x tolerances, and real ProvideLiquidity transactions on deployed cp/stableswap/3pool pools x 6 deposit shapes x 6 tolerances x the order in which the message lists the assets (documented rule on the cp outcome; outcome and minted LP independent of the listing order); (c) in BFS-reached states of the real CP and stableswap pairs: swaps with every (max_spread, belief) pair must succeed iff within the limit judged on the realised amounts; (d) router: minimum_receive in {D-1,D,D+1} around the simulated amount, receivers with balance {0,5,1e9}, all 1-3 hop routes: success iff delta >= m.",
+    text="(a) exhaustive grid of assert_max_spread over (offer,return,spread) boundary alphabet^3 x 10 max_spread values x 7 belief prices against the documented rule in exact rationals (1.3e6 points); (b) exhaustive grid of assert_slippage_tolerance (pair CP and stableswap arms, 3pool) over deposits x pools x tolerances, and real ProvideLiquidity transactions on deployed cp/stableswap/3pool pools x 6 deposit shapes x 6 tolerances x the order in which the message lists the assets (pools that owe several percent of a reserve in protocol fees; documented rule with a 4e-18 band on the cp outcome judged on the reported reserves; outcome and minted LP independent of the listing order); the (max_spread x belief) probe also runs on a 3pool with a cw20 asset in all six directions; (c) in BFS-reached states of the real CP and stableswap pairs: swaps with every (max_spread, belief) pair must succeed iff within the limit judged on the realised amounts; (d) router: minimum_receive in {D-1,D,D+1} around the simulated amount, receivers with balance {0,5,1e9}, all 1-3 hop routes: success iff delta >= m.",
     note="A one-unit / 1e-18 indifference band around each threshold; undefined 0/0 ratios are counted, not judged.", tech="exhaustive input-grid enumeration + explicit-state probes on the implementation", ref="DESIGN.md §4 C15"),
  "C16": dict(
     text="Fully enumerated privilege matrix on one deployment holding every contract of the hub: 42 privileged ExecuteMsg variants (incl. NextLoan naming the caller as source vault and CloseFlow by a label shared with another user's flow) (hand-classified table in the evidence) x 20 caller roles (owner, other owner, users, flow creator, a real proxy contract, each hub contract's address as sender) x {before, after transferring ownership of every contract}: an unauthorised caller must be rejected with full-state equality, the authorised caller with the same payload must succeed (so rejections are due to the caller), after the transfer the roles swap.",
     note="Classification table is hand-written from the property. Known finding: router AssertMinimumReceive has no sender check.", tech="exhaustive matrix enumeration on the implementation (explicit-state, one transaction deep)", ref="DESIGN.md §4 C16"),
  "C17": dict(
-    text="Fully enumerated: {CP pair, stableswap pair, 3pool} x {with, without liquidity} x 2^3 toggle combinations x every entry path (direct ProvideLiquidity, via frontend_helper; LP Send{WithdrawLiquidity}, direct WithdrawLiquidity{}; native Swap, cw20 Send{Swap}, router 1-hop native / 1-hop cw20 Send / 2-hop first hop / 2-hop second hop) and {native, cw20 vault} x liquidity x 2^3 x {Deposit, Send{Withdraw}, Withdraw{}, FlashLoan direct, via vault_router}: disabled => rejected with full-state equality; enabled => same result and same balance deltas as the all-enabled control; disable->enable restores storage and behaviour; fresh pools/vaults start enabled; switches sent alone, as single-field partial updates (vault) or combined with every other optional field incl. an amp ramp (pools) are stored and enforced identically.",
+    text="Fully enumerated: {CP pair, stableswap pair, 3pool} x {with, without liquidity} x 2^3 toggle combinations x every entry path (direct ProvideLiquidity, via frontend_helper; LP Send{WithdrawLiquidity}, direct WithdrawLiquidity{}; native Swap, cw20 Send{Swap}, router 1-hop native / 1-hop cw20 Send / 2-hop first hop / 2-hop second hop) and {native, cw20 vault} x liquidity x 2^3 x {Deposit, Send{Withdraw}, Withdraw{}, FlashLoan direct, via vault_router}, plus code upgrades through the factories from older storage layouts (vault v1.1.3, pair v1.1.0, 3pool version bump) in all 8 switch states: disabled => rejected with full-state equality; enabled => same result and same balance deltas as the all-enabled control; disable->enable restores storage and behaviour; fresh pools/vaults start enabled; switches sent alone, as single-field partial updates (vault) or combined with every other optional field incl. an amp ramp (pools) are stored and enforced identically.",
     note="Default features; toggles set through the factories.", tech="exhaustive matrix enumeration with a differential oracle on the implementation", ref="DESIGN.md §4 C17"),
  "C18": dict(
     text="Explicit-state BFS (depth 3 quick / 4 thorough) over sequences of configuration writes on a deployment holding every contract, in three groups (pools; vaults; distributor+lair+collector), through every write path (factory create, factory-mediated update, owner update, direct instantiate by an arbitrary account) with values on / just inside / just outside every bound (10 fee triples incl. sums 1-1e-18, 1, 1+1e-18; amp {0,1,1e6,1e6+1}; grace {0,1,2,5,30,31}; duration {1d-1ns,1d,2d}; growth {0,.5,1,1+1e-18,2}; 0-3 bonding assets; take rate {0,1e-18,.5,1-1e-18,1,1+1e-18}; vault assets plain / token-factory denoms / cw20): every Config read back in every reached state satisfies all documented bounds, grace never decreases, rejected writes change nothing.",
